@@ -24,15 +24,16 @@ type Binding struct {
 }
 
 type FuncSpec struct {
-	File       string            `json:"file"`
-	Func       string            `json:"func"`
-	Recv       *string           `json:"recv"`
-	LeanName   string            `json:"lean_name"`
-	Bindings   []Binding         `json:"bindings"`
-	Erase      []string          `json:"erase"`       // callee expressions of erasable call statements
-	EraseStmts []string          `json:"erase_stmts"` // whole statements (printed form) erased
-	ErrorNames map[string]string `json:"error_names"` // error literal (prefix) -> constructor name
-	Note       string            `json:"note"`
+	File       string               `json:"file"`
+	Func       string               `json:"func"`
+	Recv       *string              `json:"recv"`
+	LeanName   string               `json:"lean_name"`
+	Bindings   []Binding            `json:"bindings"`
+	Erase      []string             `json:"erase"`       // callee expressions of erasable call statements
+	EraseStmts []string             `json:"erase_stmts"` // whole statements (printed form) erased
+	ErrorNames map[string]string    `json:"error_names"` // error literal (prefix) -> constructor name
+	RangeElems map[string][]Binding `json:"range_elems"` // ranged slice expr -> what is read from each element
+	Note       string               `json:"note"`
 }
 
 type ConstSpec struct {
